@@ -24,6 +24,8 @@ import math
 import z3
 
 INF = float('inf')
+if not hasattr(z3.IntNumRef, 'as_fraction'):
+    z3.IntNumRef.as_fraction = lambda self: fractions.Fraction(self.as_long())
 if hasattr(sys, 'set_int_max_str_digits'):
     sys.set_int_max_str_digits(0)
 
